@@ -356,7 +356,24 @@ fn exec_c19(plan: &Value, ctx: &mut Ctx) {
                     };
                     let after = w.digest();
                     let is_fault = matches!(&r, Recv::Msg(_, SupportedMessage::ServiceFault(_)));
-                    let carried_out = matches!(&r, Recv::Msg(_, m) if !matches!(m, SupportedMessage::ServiceFault(_)));
+                    let mut carried_out = matches!(&r, Recv::Msg(_, m) if !matches!(m, SupportedMessage::ServiceFault(_)));
+                    if let Recv::Msg(_, m) = &r {
+                        let expected = match kind {
+                            "write" => "WriteResponse",
+                            "browse" => "BrowseResponse",
+                            "add_nodes" => "AddNodesResponse",
+                            "create_sub" => "CreateSubscriptionResponse",
+                            "call" => "CallResponse",
+                            "publish" => "PublishResponse",
+                            _ => "ReadResponse",
+                        };
+                        let got = l2::msg_kind(m);
+                        if carried_out && got != expected {
+                            // a response that does not answer this request at all (request ids are per connection)
+                            ctx.violate("C21", "response-on-wrong-connection", "", format!("{} request on connection {} was answered with {}", kind, ci, got));
+                            carried_out = false;
+                        }
+                    }
                     if let Some(k) = model {
                         let m = &mut w.sessions[k];
                         if !authorised && m.timeout_ms > 0.0 && (now - m.last_request_ms) as f64 > m.timeout_ms && !m.closed {
